@@ -194,8 +194,11 @@ def run(tier, seed):
         jobs2 = []
         for i in retry:
             name, hyps, goal, tmo, on_model, quick = jobs[i]
-            real_hyps, real_goal, hint = info["real_jobs"][i]
-            jobs2.append((name, real_hyps + hint, real_goal, 30000, on_model, False))
+            from vc.bvutil import realize_axioms
+            hint = info["real_jobs"][i][2]
+            # same (abstracted) query plus: gain == 1 and every uninterpreted
+            # product tied to the real multiplication
+            jobs2.append((name, hyps + hint + realize_axioms(hyps + [goal]), goal, 30000, on_model, False))
         for i, r2 in zip(retry, parallel.discharge(jobs2)):
             if r2["verdict"] == smt.REFUTED and isinstance(r2.get("data"), dict):
                 results[i] = dict(r2, i=i)
